@@ -11,6 +11,7 @@ import (
 	"math/rand"
 	"os"
 	"path/filepath"
+	"regexp"
 	"runtime"
 	"sort"
 	"strings"
@@ -55,6 +56,7 @@ type Run struct {
 	wdMu         sync.Mutex
 	inflight     map[int64]inflight
 	wdNext       int64
+	lastLeave    time.Time
 	Floor        int // minimum of distinct non-trivial cases (set by the driver; used when the watchdog ends the run)
 	evals        int64
 	distinct     map[uint64]struct{}
@@ -230,7 +232,7 @@ func (r *Run) Guard(c *Case, f func()) {
 // before this does.
 var WatchdogLimit = 15 * time.Minute
 
-type inflight struct {
+type inflight struct { // (Run.lastLeave: when a guarded case last finished)
 	c     *Case
 	start time.Time
 }
@@ -250,7 +252,25 @@ func (r *Run) enterCase(c *Case) int64 {
 func (r *Run) leaveCase(id int64) {
 	r.wdMu.Lock()
 	delete(r.inflight, id)
+	r.lastLeave = time.Now()
 	r.wdMu.Unlock()
+}
+
+var blockedHeaderRe = regexp.MustCompile(`^goroutine \d+ \[[^\]]*, (\d+) minutes\]`)
+var repoFrameInStackRe = regexp.MustCompile(`(?m)^github\.com/openfga/language/pkg/go/(graph|transformer|utils|validation|gen|errors)[./]`)
+
+// blockedInRepo: a goroutine that the Go scheduler has had parked for a minute or more (waiting for a lock, a
+// channel, a condition) with a frame of the repository on its stack - a call of the code under test that waits for
+// something nobody will deliver. This is a state of the program, not an elapsed-time guess.
+func blockedInRepo() string {
+	buf := make([]byte, 8<<20)
+	buf = buf[:runtime.Stack(buf, true)]
+	for _, g := range strings.Split(string(buf), "\n\n") {
+		if blockedHeaderRe.MatchString(g) && repoFrameInStackRe.MatchString(g) {
+			return clip(g, 3000)
+		}
+	}
+	return ""
 }
 
 func (r *Run) watchdog() {
@@ -264,7 +284,31 @@ func (r *Run) watchdog() {
 				stuck, age = f.c, d
 			}
 		}
+		var oldest time.Duration
+		var oldestCase *Case
+		for _, f := range r.inflight {
+			if d := time.Since(f.start); d > oldest {
+				oldest, oldestCase = d, f.c
+			}
+		}
+		idle := time.Since(r.lastLeave)
 		r.wdMu.Unlock()
+		if stuck == nil && oldestCase != nil && oldest > 70*time.Second {
+			if g := blockedInRepo(); g != "" {
+				r.Violation("call-blocked-in-repository-code", oldestCase, "a result or an error", "a goroutine has been parked for a minute or more inside the code under test (the case shown is the oldest one in flight):\n"+g)
+				r.Note("blocked call: the run was cut short, counts are partial")
+				code := r.Finish(r.Floor)
+				if code == 0 {
+					code = 1
+				}
+				os.Exit(code)
+			}
+			// nothing has finished for three minutes and a case is five minutes old (cases take milliseconds to
+			// seconds; everything else of the run is done): the same verdict as the 15-minute limit, sooner
+			if oldest > 5*time.Minute && idle > 3*time.Minute {
+				stuck, age = oldestCase, oldest
+			}
+		}
 		if stuck != nil {
 			r.Violation("call-did-not-return", stuck, "a result or an error", fmt.Sprintf("the case has been running for %s (wall-clock watchdog; such cases take milliseconds to seconds)", age.Round(time.Second)))
 			r.Note("watchdog fired: the run was cut short, counts are partial")
